@@ -87,6 +87,11 @@ def environment(rnd):
         # a function with an effect on the model that yields a boolean: both operands of and / or are evaluated
         'touch': {'params': ['n'], 'ret': 'boolean', 'ptypes': {'n': 'integer'}, 'body': [
             Create('t', 'B'), Assign(Field(V('t'), 'N'), P('n')), Ret(Bin('>', P('n'), I(k3)))]},
+        # model elements whose names differ only in letter case (OAL names are case-sensitive): functions limit / zero next
+        # to the constants LIMIT / ZERO, a function color next to the enumeration Color
+        'limit': {'params': ['n'], 'ret': 'integer', 'ptypes': {'n': 'integer'}, 'body': [Ret(Bin('+', Bin('*', P('n'), I(3)), I(k2)))]},
+        'zero': {'params': [], 'ret': 'integer', 'ptypes': {}, 'body': [Ret(I(40 + k1))]},
+        'color': {'params': ['n'], 'ret': 'integer', 'ptypes': {'n': 'integer'}, 'body': [Ret(Bin('-', P('n'), I(k3)))]},
         'lim': {'params': ['LIMIT', 's'], 'ret': 'integer', 'ptypes': {'LIMIT': 'integer', 's': 'string'}, 'body': [
             Assign(V('s'), Str('go')),
             If(Bin('==', P('s'), V('s')), [Ret(Bin('+', Bin('*', V('LIMIT'), I(10)), P('LIMIT')))]),
@@ -249,6 +254,10 @@ def scripts(rnd, env):
                         icall('EE1', 'br', 'bridge', n=I(rnd.randint(0, 9)), s=Str('x'))))])
     out.append([Ret(Bin('+', Bin('*', {'t': 'enum', 'ns': 'Color', 'n': e0[-1]}, I(10)), {'t': 'enum', 'ns': 'Color', 'n': e0[0]}))])
     out.append([If(Bin('and', V('ENABLED'), Bin('==', V('GREETING'), Str('go'))), [Ret(Bin('+', V('LIMIT'), I(1)))]), Ret(I(0))])
+    # names that differ only in letter case address different model elements
+    out.append([Ret(Bin('+', Bin('*', fcall('limit', n=I(rnd.randint(0, 5))), I(1000)),
+                        Bin('+', Bin('*', V('LIMIT'), I(100)), Bin('+', fcall('zero'), V('ZERO')))))])
+    out.append([Ret(Bin('+', Bin('*', fcall('color', n=I(rnd.randint(3, 9))), I(10)), {'t': 'enum', 'ns': 'Color', 'n': e0[0]}))])
     # calls inside a where clause, a loop condition and a for each body
     out.append([Create('a1', 'A'), Assign(Field(V('a1'), 'N'), I(1)), Create('a2', 'A'), Assign(Field(V('a2'), 'N'), I(rnd.randint(2, 9))),
                 SelectFrom('many', 'as', 'A', Bin('>=', Field({'t': 'selected'}, 'N'), fcall('clobber', v=I(0)))),
